@@ -288,6 +288,13 @@ bool NinjaMain::RebuildManifest(const char* input_file, string* err,
   if (builder.AlreadyUpToDate())
     return false;  // Not an error, but we didn't rebuild.
 
+  // The commands that bring the manifest up to date take job slots from the
+  // jobserver like those of the build proper.
+  std::unique_ptr<Jobserver::Client> jobserver_client =
+      SetupJobserverClient(status);
+  if (jobserver_client.get())
+    builder.SetJobserverClient(std::move(jobserver_client));
+
   if (builder.Build(err) != ExitSuccess)
     return false;
 
